@@ -83,6 +83,7 @@ def run_case(case, built=None, keep_obs=False):
              'max_pending': obs.max_pending, 'post_end_released': ctl.post_end_released,
              'cancel_delivered': 0, 'dup_request': 0, 'trace_len': len(obs.trace)}
     cancelled = obs.cancelled_steps
+    stats['cancel_inflight'] = sum(1 for g, t in ctl.cancel_info.values() if g > 0 or t > 0)
     faults = bool(case.get('collab_faults'))
     for i, ro in enumerate(obs.runs):
         ref = refsem.evaluate(prog, ro.tag, ro.val)
